@@ -51,7 +51,12 @@ Meaning given to them (the trusted part; the fixed PRELUDE spells it out in Gall
   * `str(<float>)` is not modelled: a text is a list of pieces `PNum x | PStr s`;
   * loops: `for` is a fold over the list, `while` runs on explicit fuel (`Raise Unmodelled` when it runs
     out), the loop state is the tuple of the variables the body assigns;
-  * an index out of range is `Raise Unmodelled` (the model's `exn` has no IndexError).
+  * an index out of range is `Raise Unmodelled` (the model's `exn` has no IndexError);
+  * lists are values: `lst[i] = e` is accepted only on a list that was created in the method (a list
+    display or list(map(..))) and has not yet been stored in an attribute, passed on or returned; an
+    in-place change of anything reachable from another object (`ret._sisig[i] += e`, `l = x._sisig; l[i] = e`)
+    is rejected as unsupported -- it is never treated as a change of a fresh copy;
+  * every generated definition takes the number structure and the module tables as arguments.
 
 Trusted (joins the trusted base of C16 / C17): this file -- the subset semantics above.
 
